@@ -54,8 +54,11 @@ impl Clone for Binary { #[verifier::external_body] fn clone(&self) -> (r: Self) 
 /// assumed total for the message types used here (plain derive(Serialize) structs/enums)
 #[verifier::external_body]
 pub fn to_json_binary<T>(v: &T) -> (r: Result<Binary, StdError>) ensures r is Ok && r->Ok_0@ == ser::<T>(*v) { unimplemented!() }
+pub trait BinLike { spec fn bin_view(&self) -> Seq<u8>; }
+impl BinLike for Binary { open spec fn bin_view(&self) -> Seq<u8> { self@ } }
+impl BinLike for &Binary { open spec fn bin_view(&self) -> Seq<u8> { (**self)@ } }
 #[verifier::external_body]
-pub fn from_json<T>(b: &Binary) -> (r: Result<T, StdError>) ensures r is Ok ==> r->Ok_0 == de::<T>(b@) { unimplemented!() }
+pub fn from_json<T, B: BinLike>(b: B) -> (r: Result<T, StdError>) ensures r is Ok ==> r->Ok_0 == de::<T>(b.bin_view()) { unimplemented!() }
 
 pub enum OverflowOperation { Add, Sub, Mul, Pow, Shr, Shl }
 impl OverflowError {
